@@ -94,6 +94,29 @@ def json_document_correspondence(run, d, raw, stats, mism, what):
         mism.append(dict(what=what, real=raw.strip()[:300], model=r[0][:300], decode=r[1], wf=r[2]))
 
 
+def count_select_items(text):
+    """items of the SELECT list of a query text: commas outside string literals, parentheses and brackets"""
+    i = text.rindex("SELECT") + len("SELECT")
+    depth, instr, n, k = 0, False, 1, i
+    while k < len(text):
+        c = text[k]
+        if instr:
+            if c == "\\":
+                k += 1
+            elif c == '"':
+                instr = False
+        elif c == '"':
+            instr = True
+        elif c in "([":
+            depth += 1
+        elif c in ")]":
+            depth -= 1
+        elif c == "," and depth == 0:
+            n += 1
+        k += 1
+    return n
+
+
 def large_result_set(run, stats):
     """thousands of reported combinations: row i must still belong to combination i (JSON), and every text block must
     carry the row of its own entity"""
@@ -173,6 +196,13 @@ def run(run):
             if qi % 7 == 3:
                 text = 'FROM block_comment AS c SELECT c, "lit <&> \\"q\\" \\\\ ü"'
                 q = None
+            elif qi % 9 == 6:
+                # the same item more than once in the SELECT list: one value per item all the same
+                k9 = rng.choice([k for k in ("method_declaration", "class_declaration", "variable_declaration") if proj.by_kind.get(k)])
+                text = rng.choice(['FROM %s AS e SELECT e.getName(), "-", e.getName()', 'FROM %s AS e SELECT e.getName(), "|", e.getVisibility(), "|"',
+                                   'FROM %s AS e SELECT "x", "x"', 'FROM %s AS e SELECT e, e.getName(), e']) % k9
+                stats["repeated_select_items"] += 1
+                q = None
             elif qi % 9 == 4:
                 # cells of more than a kilobyte: a long literal, a long attribute value, the description of an entity with one
                 text = rng.choice(['FROM variable_declaration AS v WHERE v.getScope() == "field" SELECT v.getName(), "%s", v.getVariableValue()' % ("é long literal " * 110),
@@ -203,6 +233,11 @@ def run(run):
                 stats["skipped_large"] += 1
                 continue
             sel = pr["select"]
+            # the number of SELECT items as written (not as the parser under test counts them)
+            nsel = len(q.select_items) if q is not None else count_select_items(text)
+            if len(sel) != nsel:
+                run.violation("C15:select-items-lost", "the SELECT list of %r has %d items, the parsed query keeps %d" % (text[:200], nsel, len(sel)), dict(query=text, kept=sel))
+                continue
             layout = d.call("output", text)
             # ---- run all modes
             base = ["query", "--project", proj.dir, "--query", text, "--disable-metrics"]
